@@ -499,6 +499,16 @@ fn mode_parse(c: &Case, out: &mut String) {
         let fr = &r[id];
         write!(out, "P {}:{} (", c.name, id).unwrap();
         sx::s(out, text);
+        // what LineColLookup::get_by_cluster answers at every character boundary (and at the end)
+        {
+            let lookup = line_col::LineColLookup::new(text);
+            out.push('(');
+            for (off, _) in text.char_indices().chain(std::iter::once((text.len(), ' '))) {
+                let lc = lookup.get_by_cluster(off);
+                write!(out, "({} {})", lc.0, lc.1).unwrap();
+            }
+            out.push(')');
+        }
         sx::file_result(out, &fr.id, &fr.ast, &fr.diagnostics);
         sx::list(out, &expected, |o, v| sx::list(o, v, |o, x| sx::s(o, x)));
         out.push_str(")\n");
